@@ -399,12 +399,26 @@ func runC18(c *fw.Ctx, cs fw.Case) {
 			c.Eval(1)
 			c.Count("binary_checks", 1)
 			c.Distinct(what)
-			if len(bs) == 0 && len(is) > 0 && len(pvs[len(pvs)-1].Moves) > 0 {
-				c.Violate("determinism:binary", "the binary reported no iteration: %s: %s", what, transcript)
-				continue
+			// info lines are best effort (dropped once the search is answered): compare the iterations both report,
+			// and the bestmove with the first move of the in-process final iteration
+			bm := map[string]searchResult{}
+			for _, x := range bs {
+				bm[x.score[:strings.IndexByte(x.score, ':')]] = x
 			}
-			if d := streamDiff(is, bs, true); d != "" {
-				c.Violate("determinism:binary", "the real binary and the in-process engine of the same recipe differ: %s: %s: %s", d, what, transcript)
+			for _, x := range is {
+				if o, ok := bm[x.score[:strings.IndexByte(x.score, ':')]]; ok {
+					if d := x.diff(o, true); d != "" {
+						c.Violate("determinism:binary", "the real binary and the in-process engine of the same recipe differ at %s: %s: %s: %s", x.score, d, what, transcript)
+						break
+					}
+				}
+			}
+			want := "bestmove 0000"
+			if len(pvs) > 0 && len(pvs[len(pvs)-1].Moves) > 0 {
+				want = "bestmove " + adapt.TupleOfB(pvs[len(pvs)-1].Moves[0]).String()
+			}
+			if i := strings.LastIndex(transcript, "bestmove"); i < 0 || !strings.HasPrefix(transcript[i:], want) {
+				c.Violate("determinism:binary", "the real binary answers differently from the in-process engine of the same recipe (expected %q): %s: %s", want, what, transcript)
 			}
 		}
 	case "concurrent":
